@@ -49,6 +49,7 @@ pub fn gen(rng: &mut Rng, n: usize, out: &mut Vec<String>) {
                 Act::Withdraw { u, b, amt, all } => ("ix.wd", u, b, amt, all),
                 Act::Borrow { u, b, amt } => ("ix.bor", u, b, amt, false),
                 Act::Repay { u, b, amt, all } => ("ix.rep", u, b, amt, all),
+                Act::CloseBalance { u, b } => ("ix.close", u, b, 0, false),
                 _ => {
                     let _ = s.step(&act, &mut scratch);
                     continue;
